@@ -357,15 +357,17 @@ class NormalizeCurve(Command):
             prev_normal = value_pairs[i - 1][1]
 
             m = (normal - prev_normal) / (raw - prev_raw)
-            b = prev_normal - m * prev_raw
 
             where_idx = numpy.where(
                 numpy.logical_and(arr.data > prev_raw, arr.data <= raw)
             )
 
+            # Interpolate from the start of the segment (not from the intercept at zero, which loses all precision when
+            # the raw values are large compared with the width of the segment)
             result[where_idx] = arr.data[where_idx]
+            result[where_idx] -= prev_raw
             result[where_idx] *= m
-            result[where_idx] += b
+            result[where_idx] += prev_normal
 
         # For raw values greater than the highest raw value, set them to the corresponding normal value
         result[arr > value_pairs[-1][0]] = value_pairs[-1][1]
@@ -457,14 +459,14 @@ class NormalizeCurveZScore(Command):
             prev_normal = value_pairs[i - 1][1]
 
             m = (normal - prev_normal) / (raw - prev_raw)
-            b = prev_normal - m * prev_raw
 
             where_idx = numpy.where(
                 numpy.logical_and(arr.data > prev_raw, arr.data <= raw)
             )
             result[where_idx] = arr.data[where_idx]
+            result[where_idx] -= prev_raw
             result[where_idx] *= m
-            result[where_idx] += b
+            result[where_idx] += prev_normal
 
         # For raw values greater than the highest raw value, set them to the corresponding normal value
         result[arr > value_pairs[-1][0]] = value_pairs[-1][1]
